@@ -1,6 +1,238 @@
 -------------------------------- MODULE Rank --------------------------------
-(* Scores, sort keys, order (C10) - filled in below *)
-EXTENDS Search
+(***************************************************************************)
+(* Scores, sort keys and order (C10), cursor walks (C11), and relational  *)
+(* equalities between executions (C09, C20).                               *)
+(*                                                                         *)
+(* Numbers: TLC has 32-bit integers and no reals.  Scores are fixed point *)
+(* with scale S = 10^4; observed f32 scores additionally come as `sbits`, *)
+(* an order-preserving integer image of the f32 bit pattern, so that       *)
+(* ORDER is judged exactly and only score VALUES use a tolerance.          *)
+(***************************************************************************)
+EXTENDS Search, Json
 
-CheckRank(D, docs, e, l, scn) == TRUE
+S == 10000
+
+NoDupSeqR(s) == Cardinality(SeqToSet(s)) = Len(s)
+
+MulDiv(a, b, c) == (a \div c) * b + ((a % c) * b) \div c      \* a*b/c without overflow
+
+(* natural logarithm of num/den (positive integers < 10^5) times S *)
+RECURSIVE LnRange(_, _, _)
+LnRange(num, den, k) ==          \* bring num/den into [1,2): returns <<num, den, k>>
+  IF num >= 2 * den THEN LnRange(num, 2 * den, k + 1)
+  ELSE IF num < den THEN LnRange(2 * num, den, k - 1)
+  ELSE <<num, den, k>>
+
+LnS(num, den) ==                  \* internal scale 10^5, result scale S
+  LET r == LnRange(num, den, 0)
+      T == 100000
+      y == ((r[1] - r[2]) * T) \div (r[1] + r[2])          \* (m-1)/(m+1) in [0, 1/3)
+      y2 == (y * y) \div T
+      y3 == (y2 * y) \div T
+      y5 == (y3 * y2) \div T
+      y7 == (y5 * y2) \div T
+      y9 == (y7 * y2) \div T
+      v == r[3] * 69315 + 2 * (y + y3 \div 3 + y5 \div 5 + y7 \div 7 + y9 \div 9)
+  IN IF v >= 0 THEN (v + 5) \div 10 ELSE 0 - ((5 - v) \div 10)
+
+ASSUME LnS(2, 1) \in 6929..6933
+ASSUME LnS(10, 1) \in 23022..23030
+ASSUME LnS(101, 1) \in 46147..46155
+ASSUME LnS(1, 2) \in (0 - 6933)..(0 - 6929)
+
+-----------------------------------------------------------------------------
+(* BM25 with k1 = 1.2, b = 0.75 and the statistics of the document's       *)
+(* segment: N = live documents, df = documents of the segment holding the  *)
+(* term, avgdl = total field length / documents of the segment.            *)
+
+SegDocs(docs, s) == {d \in docs : d.seg = s}
+
+Df(D, docs, s, f, kind, t) == Cardinality({d \in SegDocs(docs, s) : DocHas(D, d, f, kind, t)})
+
+RECURSIVE SumLens(_, _)
+SumLens(S0, f) == IF S0 = {} THEN 0
+                  ELSE LET d == CHOOSE x \in S0 : TRUE IN FieldLen(d, f) + SumLens(S0 \ {d}, f)
+
+IdfS(n, df) ==
+  LET num == 2 * n - 2 * df + 1
+      den == 2 * df + 1
+  IN IF num <= 0 THEN S ELSE MaxI(0, LnS(num, den)) + S
+
+(* score of one term for document d, times S *)
+Bm25S(D, docs, d, f, kind, t) ==
+  LET seg == SegDocs(docs, d.seg)
+      n == Cardinality({x \in seg : x.live})
+      df == Df(D, docs, d.seg, f, kind, t)
+      tf == TermFreq(D, d, f, kind, t)
+      idf == IdfS(n, df)
+  IN IF tf = 0 THEN 0
+     ELSE IF kind = "kw" THEN MulDiv(idf, 22 * tf, 10 * tf + 12)       \* no field lengths: norm = 1
+     ELSE LET total == SumLens(seg, f)
+              nd == Cardinality(seg)
+              dl == FieldLen(d, f)
+          IN IF total = 0 THEN MulDiv(idf, 22 * tf, 10 * tf + 12)
+             ELSE MulDiv(idf, 22 * tf * total, 10 * tf * total + 3 * total + 9 * dl * nd)
+
+Weighted(x, w) == MulDiv(x, w, S)
+
+-----------------------------------------------------------------------------
+(* Score tree.  EMPTY = "no scorer" (match_all, phrase, ...): the document *)
+(* then scores 1.                                                          *)
+EMPTY == 0 - 1
+
+RECURSIVE SumSeq(_)
+SumSeq(s) == IF s = <<>> THEN 0 ELSE Head(s) + SumSeq(Tail(s))
+RECURSIVE MaxSeq(_)
+MaxSeq(s) == IF Len(s) = 1 THEN s[1] ELSE MaxI(Head(s), MaxSeq(Tail(s)))
+
+RECURSIVE SumFn(_, _)
+SumFn(f, X) == IF X = {} THEN 0 ELSE LET x == CHOOSE y \in X : TRUE IN f[x] + SumFn(f, X \ {x})
+SumSet(X, F(_)) == SumFn([x \in X |-> F(x)], X)
+
+AltScore(D, docs, d, alt) ==
+  LET one(t) == Weighted(Bm25S(D, docs, d, alt.f, alt.kind, t), alt.w) IN
+  SumSet(SeqToSet(alt.toks), one)
+
+TermScore(D, docs, d, n) ==
+  LET one(i) == AltScore(D, docs, d, n.alts[i]) IN SumSet(DOMAIN n.alts, one)
+
+ExpansionScore(D, docs, d, n) ==
+  LET one(t) == Weighted(Bm25S(D, docs, d, n.f, n.kind, t), n.w) IN
+  SumSet(ExpansionTerms(D, docs, n), one)
+
+SelectSeq2(s, P(_)) == SelectSeq(s, P)
+
+Combine(vals, mode, tie) ==      \* vals: sequence of non-EMPTY child values
+  IF vals = <<>> THEN EMPTY
+  ELSE IF Len(vals) = 1 THEN vals[1]
+  ELSE IF mode = "sum" THEN SumSeq(vals)
+  ELSE LET mx == MaxSeq(vals) IN mx + MulDiv(SumSeq(vals) - mx, tie, S)
+
+RECURSIVE NodeVal(_, _, _, _)
+NodeVal(D, docs, d, q) ==
+  CASE q.k = "term" -> IF q.sc THEN TermScore(D, docs, d, q) ELSE EMPTY
+    [] q.k \in {"prefix", "wild"} -> IF q.sc THEN ExpansionScore(D, docs, d, q) ELSE EMPTY
+    [] q.k = "qs" ->
+         IF q.groups = <<>> \/ ~q.groups[1].sc THEN EMPTY
+         ELSE IF q.comb = "sum"
+           THEN Combine([i \in DOMAIN q.groups |-> TermScore(D, docs, d, q.groups[i])], "sum", 0)
+         ELSE IF q.comb = "best_fields"
+           THEN LET nf == Len(q.groups[1].alts)
+                    perField(j) == LET one(i) == AltScore(D, docs, d, q.groups[i].alts[j]) IN
+                                   SumSet(DOMAIN q.groups, one)
+                IN IF nf = 0 THEN EMPTY ELSE Combine([j \in 1..nf |-> perField(j)], "dismax", q.tie)
+         ELSE LET one(i) == TermScore(D, docs, d, q.groups[i]) IN SumSet(DOMAIN q.groups, one)
+    [] q.k = "bool" ->
+         LET kids == q.must \o q.should \o q.mustnot
+             vals == [i \in DOMAIN kids |-> NodeVal(D, docs, d, kids[i])]
+         IN Combine(SelectSeq(vals, LAMBDA v : v # EMPTY), "sum", 0)
+    [] q.k = "dismax" ->
+         LET vals == [i \in DOMAIN q.qs |-> NodeVal(D, docs, d, q.qs[i])]
+         IN Combine(SelectSeq(vals, LAMBDA v : v # EMPTY), "dismax", q.tie)
+    [] q.k = "const" -> IF Passes(D, d, q.g) THEN q.score ELSE 0
+    [] OTHER -> EMPTY
+
+ScoreS(D, docs, d, q) == LET v == NodeVal(D, docs, d, q) IN IF v = EMPTY THEN S ELSE v
+
+(* is the absolute score oracle applicable to this query *)
+RECURSIVE PlainScoring(_)
+PlainScoring(q) ==
+  CASE q.k \in {"fscore", "fvf"} -> FALSE
+    [] q.k = "bool" -> /\ \A i \in DOMAIN q.must : PlainScoring(q.must[i])
+                       /\ \A i \in DOMAIN q.should : PlainScoring(q.should[i])
+                       /\ \A i \in DOMAIN q.mustnot : PlainScoring(q.mustnot[i])
+    [] q.k = "dismax" -> \A i \in DOMAIN q.qs : PlainScoring(q.qs[i])
+    [] OTHER -> TRUE
+
+Close(a, b) == LET diff == IF a >= b THEN a - b ELSE b - a IN
+               diff <= 20 + (MaxI(a, b) \div 100)          \* 0.002 absolute + 1 % relative
+
+-----------------------------------------------------------------------------
+(* Sort keys.  A sort spec is [kind: "score"|"kw"|"i64"|"f64", f, desc].   *)
+(* Field values: minimum for ascending, maximum for descending; documents  *)
+(* without a value come last in both directions; ties by (segment, ord).   *)
+
+NumKeyVal(vals, desc) ==
+  IF vals = <<>> THEN [miss |-> TRUE, v |-> 0]
+  ELSE [miss |-> FALSE, v |-> IF desc THEN SetMax(SeqToSet(vals)) ELSE SetMin(SeqToSet(vals))]
+
+StrPick(D, vals, desc) ==
+  CHOOSE x \in SeqToSet(vals) : \A y \in SeqToSet(vals) :
+     x = y \/ (IF desc THEN StrLess(D, y, x) ELSE StrLess(D, x, y))
+
+(* -1 / 0 / 1 : does hit a come before b under one sort spec *)
+CmpPart(D, spec, da, sa, db, sb) ==
+  IF spec.kind = "score" THEN
+       IF sa = sb THEN 0 ELSE IF (sa > sb) = spec.desc THEN 0 - 1 ELSE 1
+  ELSE IF spec.kind = "kw" THEN
+       LET va == Vals(da.kw, spec.f)  vb == Vals(db.kw, spec.f) IN
+       IF va = <<>> /\ vb = <<>> THEN 0
+       ELSE IF va = <<>> THEN 1 ELSE IF vb = <<>> THEN 0 - 1
+       ELSE LET xa == StrPick(D, va, spec.desc)  xb == StrPick(D, vb, spec.desc) IN
+            IF xa = xb THEN 0
+            ELSE IF StrLess(D, xa, xb) = ~spec.desc THEN 0 - 1 ELSE 1
+  ELSE LET la == IF spec.kind = "i64" THEN Vals(da.i64, spec.f) ELSE Vals(da.f64, spec.f)
+           lb == IF spec.kind = "i64" THEN Vals(db.i64, spec.f) ELSE Vals(db.f64, spec.f)
+           ka == NumKeyVal(la, spec.desc)  kb == NumKeyVal(lb, spec.desc)
+       IN IF ka.miss /\ kb.miss THEN 0
+          ELSE IF ka.miss THEN 1 ELSE IF kb.miss THEN 0 - 1
+          ELSE IF ka.v = kb.v THEN 0
+          ELSE IF (ka.v < kb.v) = ~spec.desc THEN 0 - 1 ELSE 1
+
+RECURSIVE CmpKeys(_, _, _, _, _, _)
+CmpKeys(D, sort, da, sa, db, sb) ==
+  IF sort = <<>> THEN
+       IF da.seg # db.seg THEN (IF da.seg < db.seg THEN 0 - 1 ELSE 1)
+       ELSE IF da.ord = db.ord THEN 0 ELSE IF da.ord < db.ord THEN 0 - 1 ELSE 1
+  ELSE LET c == CmpPart(D, Head(sort), da, sa, db, sb) IN
+       IF c # 0 THEN c ELSE CmpKeys(D, Tail(sort), da, sa, db, sb)
+
+LiveDoc(docs, id) == CHOOSE d \in docs : d.id = id /\ d.live
+
+(* the returned sequence is strictly increasing under the sort plan, using *)
+(* the observed scores for `_score` parts                                  *)
+Ordered(D, docs, sort, ids, sbits) ==
+  \A i \in 1..(Len(ids) - 1) :
+     CmpKeys(D, sort, LiveDoc(docs, ids[i]), sbits[i], LiveDoc(docs, ids[i + 1]), sbits[i + 1]) < 0
+
+UsesScore(sort) == \E i \in DOMAIN sort : sort[i].kind = "score"
+
+-----------------------------------------------------------------------------
+Tell(kind, prop, l, scn, e, why, dev) ==
+  PrintT(ToJson([kind |-> kind, property |-> prop, line |-> l, scn |-> scn,
+                 check |-> e.check, why |-> why, deviation |-> dev]))
+
+(* C10: membership, order, scores and top-k completeness of one response.  *)
+CheckRank(D, docs, e, l, scn) ==
+  IF ~UnderCaps(D, docs, e.q) THEN TRUE
+  ELSE
+  LET ideal == Expected(D, docs, e.q, e.filters)
+      built == ExpectedAsBuilt(D, docs, e.q, e.filters)
+      ids == e.obs.ids
+      got == SeqToSet(ids)
+      n == Len(ids)
+      scoreDesc == <<[kind |-> "score", f |-> "_score", desc |-> TRUE]>>
+      absolute == e.absolute /\ PlainScoring(e.q) /\ UsesScore(e.sort)
+      (* membership and top-k completeness relative to a candidate set `base` *)
+      OkUnder(base) ==
+        LET rest == {d \in base : d.id \notin got} IN
+        /\ IF n < e.limit THEN got = {d.id : d \in base} ELSE got \subseteq {d.id : d \in base}
+        /\ (n = e.limit /\ n > 0 /\ ~UsesScore(e.sort)) =>
+              \A d \in rest : CmpKeys(D, e.sort, LiveDoc(docs, ids[n]), e.obs.sbits[n], d, 0) < 0
+        /\ (n = e.limit /\ n > 0 /\ absolute /\ e.sort = scoreDesc) =>
+              \A d \in rest : ScoreS(D, docs, d, e.q) <= e.obs.scores[n] + 20 + (e.obs.scores[n] \div 100)
+      scoresOk ==
+        absolute => \A i \in DOMAIN ids : Close(e.obs.scores[i], ScoreS(D, docs, LiveDoc(docs, ids[i]), e.q))
+  IN IF ~e.obs.ok THEN Tell("FAIL", e.prop, l, scn, e, "search returned an error", "")
+     ELSE IF ~(NoDupSeqR(ids) /\ n <= e.limit /\ got \subseteq {d.id : d \in ideal})
+       THEN Tell("FAIL", e.prop, l, scn, e, "returned ids are not matching live documents", "")
+     ELSE IF ~Ordered(D, docs, e.sort, ids, e.obs.sbits)
+       THEN Tell("FAIL", e.prop, l, scn, e, "hits are not ordered by the sort plan with (segment, doc) tie-break", "")
+     ELSE IF ~scoresOk
+       THEN Tell("FAIL", e.prop, l, scn, e, "a score differs from BM25 combined through the query tree", "")
+     ELSE IF OkUnder(ideal) THEN TRUE
+     ELSE IF OkUnder(built)
+       THEN Tell("DEV", e.prop, l, scn, e, "only documents containing a scored term are candidates", "S07a")
+     ELSE Tell("FAIL", e.prop, l, scn, e, "a matching document that belongs in the result is missing", "")
+
 =============================================================================
